@@ -70,19 +70,19 @@ impl Gen {
         let target_buckets = *rng.pick(&[16usize, 16, 32, 32, 64, 128]);
         Gen { rng, universe, next_id: 1, profile, phase: 0, fresh_key: 0, target_buckets }
     }
-    fn id(&mut self) -> u64 {
+    pub fn id(&mut self) -> u64 {
         let i = self.next_id;
         self.next_id += 1;
         i
     }
-    fn key(&mut self) -> u64 {
+    pub fn key(&mut self) -> u64 {
         self.rng.below(self.universe)
     }
-    fn insert(&mut self, k: u64) -> String {
+    pub fn insert(&mut self, k: u64) -> String {
         let (kid, vid) = (self.id(), self.id());
         format!("insert {} {} {} {}", k, kid, vid, 100 + self.rng.below(50))
     }
-    fn present_key(&mut self, r: &dyn Runner, tgt: &str) -> Option<u64> {
+    pub fn present_key(&mut self, r: &dyn Runner, tgt: &str) -> Option<u64> {
         let ks = r.keys(tgt);
         if ks.is_empty() {
             None
@@ -196,6 +196,9 @@ impl Gen {
                     format!("a drain {} 0", self.rng.below(6))
                 }
             }
+            p if p.starts_with("table") => crate::gen_ext::next_table(self, r),
+            p if p.starts_with("set") => crate::gen_ext::next_set(self, r),
+            p if p.starts_with("entry") => crate::gen_ext::next_entry(self, r),
             _ => self.mixed(r),
         }
     }
@@ -247,7 +250,7 @@ impl Gen {
         }
     }
 
-    fn mixed(&mut self, r: &dyn Runner) -> String {
+    pub fn mixed(&mut self, r: &dyn Runner) -> String {
         let x = self.rng.below(1000);
         let k = self.key();
         let tgt = if self.rng.chance(1, 6) { "b" } else { "a" };
